@@ -299,10 +299,12 @@ func allocState(n *hx.Node) (lines []string, violation string) {
 	}
 	// collection short ids
 	seen := map[string]string{}
+	shortOf := map[string]string{}
 	var maxCol uint64
 	for _, kv := range read("/db/system/collection/shortID/") {
 		k := strings.TrimPrefix(string(kv.K), "/db/system")
 		lines = append(lines, fmt.Sprintf("%s = %s", k, kv.V))
+		shortOf[k] = string(kv.V)
 		id, err := strconv.ParseUint(string(kv.V), 10, 64)
 		if err != nil {
 			note(fmt.Sprintf("short id %s = %q is not a number", k, kv.V))
@@ -351,6 +353,11 @@ func allocState(n *hx.Node) (lines []string, violation string) {
 		maxIx := map[string]uint32{}
 		for _, c := range cols {
 			v := c.Version()
+			if v.CollectionID != "" {
+				if _, ok := shortOf["/collection/shortID/"+v.CollectionID]; !ok {
+					note(fmt.Sprintf("collection %q (collection id %s) is described in the store but has no persisted short id: its keys cannot be built after a restart", v.Name, v.CollectionID))
+				}
+			}
 			for _, ix := range v.Indexes {
 				if ix.ID > maxIx[v.CollectionID] {
 					maxIx[v.CollectionID] = ix.ID
@@ -439,6 +446,24 @@ func diffDumps(a, b *dumper) (class, desc string, differ bool) {
 	return "", "", false
 }
 
+const sigEmptyDBTypes = "C14/dump/gql-types/empty-database-first-boot-vs-restart"
+
+// emptyDatabase reports a dump of a database that holds no collection version and no schema at all.
+// Diagnoser of the known finding: the GraphQL types of such a database differ between the first boot
+// (parser bootstrap schema) and any later start (loadSchema generates the collection-independent types).
+func emptyDatabase(d *dumper) bool {
+	n := 0
+	for _, s := range d.out {
+		if s.name == "collections (all versions)" || s.name == "schemas" {
+			n++
+			if s.text != "" {
+				return false
+			}
+		}
+	}
+	return n == 2
+}
+
 // compareDumps compares the logical dumps of R and T.
 func (w *world) compareDumps(phase string) *hx.Failure {
 	dr := w.dump(w.R, true)
@@ -450,6 +475,9 @@ func (w *world) compareDumps(phase string) *hx.Failure {
 	class, desc, differ := diffDumps(dr, dt)
 	if !differ {
 		return nil
+	}
+	if class == "gql-types" && emptyDatabase(dr) && emptyDatabase(dt) {
+		return hx.Failf(sigEmptyDBTypes, "step %d (%s): %s%s", w.step, phase, desc, w.history())
 	}
 	if class == "subscribed-topics" && w.p2p != nil {
 		var rt, tt string
@@ -540,6 +568,9 @@ func (w *world) crashAfter(o Op, f *hx.Failure) *hx.Failure {
 			continue
 		}
 		if class, desc, differ := diffDumps(dc, dt); differ {
+			if class == "gql-types" && emptyDatabase(dc) && emptyDatabase(dt) {
+				return hx.Failf(sigEmptyDBTypes, "step %d %s (crash point): %s%s", w.step, o.K, desc, w.history())
+			}
 			return hx.Failf("C14/crash/"+class, "step %d %s: a fresh node opened on the store contents as of the last storage commit (#%d) of this operation differs from the running twin; %s%s",
 				w.step, o.K, s.seq, desc, w.history())
 		}
